@@ -32,7 +32,7 @@ PROPS = {
                 note='std Write::write_all/write_fmt contract assumed'),
 }
 
-PROPS['C09'] = dict(level='proof', steps=[V('stream'), E3('c09-filters')],
+PROPS['C09'] = dict(level='proof', steps=[V('stream'), K('kani_png_row_of_two'), K('kani_filter_type_byte'), E3('c09-filters')],
                 title='Stream filters decode as specified; compression is lossless',
                 technique='Verus contracts on extracted PNG predictor code against PNG 9.2 reconstruction functions',
                 text='PNG predictor decoding equals the PNG 9.2 definition, ASCII85 decoding equals ISO 7.4.3, predictor dispatch and geometry, and the Length / Filter / DecodeParms bookkeeping of new, set_content, set_plain_content, compress, decompress, for every input (Verus).',
@@ -62,7 +62,7 @@ PROPS['C02'] = dict(level='proof', steps=[V('stream'), V('reader'), E3('c02-read
                 text='structural-stream decoding (Flate predictor 10-15 geometry and PNG reconstruction, ASCII85) and startxref discovery are proved for all inputs (Verus); the lexical and cross-reference grammar (nom) is compared with an independent reference writer over every combination of a bounded set of syntactic choices.',
                 note='the nom grammar itself is outside both verifiers: bounded stand-in; flate2 assumed')
 
-PROPS['C06'] = dict(level='proof', steps=[V('keys'), V('crypt'), E3('c06-interop')],
+PROPS['C06'] = dict(level='proof', steps=[V('keys'), V('crypt'), K('kani_permission_word'), E3('c06-interop')],
                 title='Standard security handler agrees with ISO 32000 algorithms',
                 technique='Verus contracts: the real key-derivation functions against spec functions written from ISO 32000-1 7.6.2-7.6.3 over an uninterpreted MD5; RC4 against its definition; interoperability with an independent reference handler (own MD5/SHA-2/AES/RC4) over an enumerated configuration family',
                 text='proved for all inputs (Verus): Algorithm 1 and 1.A (per-object key, all four crypt filters), Algorithm 2 (file key R2-4), Algorithm 3 (O value), Algorithm 4 and 5 (U value; the first 16 bytes for R3/4), Algorithm 6 and 7 (user / owner authentication: Ok exactly when the recomputed U matches, the owner path through the user password recovered from O; lemma: Algorithm 7 inverts Algorithm 3), Permissions::p_value reserved bits, RC4 = KSA/PRGA, PKCS#5 padding. Algorithms 2.A, 2.B, 8-13, password preparation, crypt-filter selection and the encryption dictionary are covered by the bounded interoperability family only.',
@@ -121,4 +121,4 @@ NOT_APPLICABLE = {
 }
 
 # commits in /repo that add cfg(lopdf_verif)-guarded hooks (recorded in MANIFEST.hooks.source_commits)
-HOOK_COMMITS = ['1647cde']
+HOOK_COMMITS = ['1647cde', '7b2e023']
